@@ -27,10 +27,12 @@ manifest = {
     "setup_cmd": "./check --setup",
     "hooks": {
         "guard": "verif",
-        "enable": "go build/test -tags verif (the driver always passes the tag; no guarded hook exists in /repo at present)",
+        "enable": "go build/test -tags verif (the driver always passes the tag). One hook: cache/lock_hook_on.go (tag verif) wraps the "
+                  "sub-cache and cached-entity mutexes so that cache.VerifLockHook is called before every acquisition (C18 injects "
+                  "sleeps/yields there); cache/lock_hook_off.go (!verif) makes the same type an alias of sync.RWMutex.",
         "baseline_off_cmd": BASELINE_OFF,
-        "source_commits": [],
-        "add_only": True,
+        "source_commits": ["523002f"],
+        "add_only": False,
     },
     "engines": [{
         "name": "harness",
